@@ -5,7 +5,7 @@
 //! write end after any byte prefix (`eof`), close its read end (`epipe`) or stall. A 5-state
 //! reference model maps the frames the server has completely received to the responses it owes
 //! and the exit status; the recorded history is checked against it.
-use crate::h::client::{frame_of, RxMsg};
+use crate::h::client::{frames_of, RxMsg};
 use crate::h::core::*;
 use crate::h::gen;
 use crate::h::runner::{self, Hang, RunOptions};
@@ -243,8 +243,8 @@ pub fn random_script(rng: &mut Rng, max_len: usize) -> Vec<Step> {
 fn frame_ends(script: &[Step]) -> (Vec<usize>, usize) {
     let mut ends = vec![];
     let mut off = 0;
-    for st in script {
-        off += frame_of(st).len();
+    for f in frames_of(script) {
+        off += f.len();
         ends.push(off);
     }
     (ends, off)
